@@ -144,7 +144,7 @@ def to_expr(v):
     return opaque(None)
 
 
-def trim(shape, depth=4):
+def trim(shape, depth=10):
     if depth <= 0:
         return ("opaque", "deep")
     if shape[0] == "op":
@@ -202,6 +202,7 @@ class Shape:
         self.depth = 0
         self.stack = []
         self.cur_fn = None
+        self.rets = [[]]
 
     # ------------------------------------------------------------------ bookkeeping
     def key(self, tag="v"):
@@ -246,13 +247,14 @@ class Shape:
                 v = self.default_param(body, i, p)
             self.bind(p, v, env)
         self.cur_fn = defpath
+        self.rets = [[]]
         try:
             ret = self.ev(body["body"], env, body)
         except Ret as r:
             ret = r.v
         except Abort:
             ret = UNK
-        self.h.ret = ret
+        self.h.ret = self.join([ret] + self.rets.pop())
         return self.h
 
     def default_param(self, body, i, p):
@@ -497,6 +499,11 @@ class Shape:
         try:
             return fn(), False
         except Abort:
+            return UNK, True
+        except Ret as r:
+            # a `return` inside one alternative ends only that path
+            if self.rets:
+                self.rets[-1].append(r.v)
             return UNK, True
         finally:
             self.ctx = saved
@@ -896,6 +903,7 @@ class Shape:
         self.act = self.act_counter
         self.cur_fn = d
         self.ctx = self.ctx + ("call:%s@%s" % (last_seg(d), n.get("l")),)
+        self.rets.append([])
         try:
             try:
                 v = self.ev(cb["body"], env, cb)
@@ -903,6 +911,9 @@ class Shape:
                 v = r.v
             except Abort:
                 v = UNK
+            extra = self.rets.pop()
+            if extra:
+                v = self.join([v] + extra)
             if not isinstance(v, tuple) or v[0] in ("unk", "never", "err", "obj", "unit"):
                 out = cb.get("output", "")
                 if "il::expression::Expression" in out and "Vec" not in out and "(" not in out:
@@ -1083,7 +1094,7 @@ class Shape:
             if name == "get":
                 for nm in self.x86_full_names(reg):
                     self.h.reads.add(nm)
-                return opaque(bits, "reg", "G")
+                return opaque(bits, "reg:%s" % (reg[3],), "G")
             if name == "set" and len(args) == 3:
                 v = to_expr(args[2])
                 self.oblige_eq("reg_set", bits, v[1], n, "register write width", "G", orig(v))
@@ -1106,7 +1117,7 @@ class Shape:
                 if name == "scalar":
                     return ("sc", None, self.col[arch], "G")
                 if name == "expression":
-                    return opaque(self.col[arch], "reg", "G")
+                    return opaque(self.col[arch], "reg:%s" % (args[0][3],), "G")
                 if name == "name":
                     return ("str", None)
         # ---- aarch64
@@ -1123,7 +1134,7 @@ class Shape:
             if name == "name":
                 return ("str", reg[2]["name"] if reg[2] else None)
             if name == "get":
-                return opaque(bits, "reg", "G")
+                return opaque(bits, "reg:%s" % (reg[3],), "G")
             if name == "get_full":
                 if reg[2]:
                     full = self.a64rows.get(last_seg(reg[2]["bad64_full_reg"]))
